@@ -26,9 +26,14 @@ type c03Op struct {
 	ts     int64
 	val    float64
 	text   string
+	// twin: the batch carries the identity twice, under both spellings of key zero: (typ, "")@ts and (typ, "0")@ts+1
+	twin bool
 }
 
 func (o c03Op) String() string {
+	if o.twin {
+		return fmt.Sprintf("%s batch %s%s %s[key \"\"]@%d=%v + %s[key \"0\"]@%d=%v", map[string]string{"np": "nodepoint", "ep": "edgepoint"}[o.kind], map[bool]string{true: o.parent + ">", false: ""}[o.kind == "ep"], o.node, o.typ, o.ts, o.val, o.typ, o.ts+1, o.val+1)
+	}
 	switch o.kind {
 	case "np":
 		if o.text != "" {
@@ -57,9 +62,16 @@ func c03Ops(root string) []c03Op {
 		ops = append(ops, c03Op{kind: "np", node: n, typ: "v", ts: 2, val: 99, text: c03Long + "a"})
 		ops = append(ops, c03Op{kind: "np", node: n, typ: "v", ts: 2, val: 99, text: c03Long + "b"})
 		// negative zero: equal to 0 as a value, another bit pattern (and the database keeps one zero only)
-		ops = append(ops, c03Op{kind: "np", node: n, typ: "v", ts: 2, val: math.Copysign(0, -1)})
+		if n == root || n == "C" {
+			ops = append(ops, c03Op{kind: "np", node: n, typ: "v", ts: 2, val: math.Copysign(0, -1)})
+		}
+		// one batch with both spellings of key zero
+		if n == root || n == "B" {
+			ops = append(ops, c03Op{kind: "np", node: n, typ: "v", ts: 2, val: 41, twin: true})
+		}
 	}
 	ops = append(ops, c03Op{kind: "ep", node: "A", parent: root, typ: "role", ts: 2, val: math.Copysign(0, -1)})
+	ops = append(ops, c03Op{kind: "ep", node: "A", parent: root, typ: "role", ts: 2, val: 41, twin: true})
 	parents := map[string][]string{"A": {root}, "B": {root, "A"}, "C": {root, "A", "B"}}
 	for _, n := range c03Nodes {
 		for _, p := range parents[n] {
@@ -133,9 +145,14 @@ func c03Body(depths []int) mc.Body {
 				o.parent = root
 			}
 			p := data.Point{Type: o.typ, Time: time.Unix(0, o.ts), Value: o.val, Text: o.text}
+			batch := data.Points{p}
+			if o.twin {
+				p = data.Point{Type: o.typ, Key: "0", Time: time.Unix(0, o.ts+1), Value: o.val + 1}
+				batch = append(batch, p) // (p, the newer one, is what the store must hold afterwards)
+			}
 			switch o.kind {
 			case "np":
-				err = client.SendNodePoints(inst.Nc, o.node, data.Points{p}, true)
+				err = client.SendNodePoints(inst.Nc, o.node, append(data.Points{}, batch...), true)
 				if err == nil {
 					if m.np[o.node] == nil {
 						m.np[o.node] = map[string]data.Point{}
@@ -146,7 +163,7 @@ func c03Body(depths []int) mc.Body {
 				}
 			case "ep":
 				e := o.parent + ">" + o.node
-				pts := data.Points{p}
+				pts := append(data.Points{}, batch...)
 				if m.edges[e] == nil {
 					if o.typ != data.PointTypeTombstone {
 						return false, nil // other edge points only on existing edges
